@@ -142,7 +142,8 @@ DESCR = {
     "Filters/Num": "numeric filter bodies (plus minus times divided_by modulo abs ceil floor round, default, size)",
     "Filters/Str": "string filter bodies (23 filters)",
     "Filters/StrGlue": "string filters plugged into the call layer (lazy arguments)",
-    "Filters/Arr": "array filter bodies (compact concat join map reverse sort sort_natural first last uniq), canonical sort form",
+    "InsertionSort": "Go's `sort.insertionSort` (`sort/zsortinterface.go`) — all of `sort.Sort` on at most 12 elements — loop by loop, for a total and for a partial (panicking / unmodelled) comparator",
+    "Filters/Arr": "array filter bodies (compact concat join map reverse sort sort_natural first last uniq): the sorts exact up to 12 elements (insertion sort), a sorted permutation beyond; canonical sort form for results of more than 12 elements",
     "Filters/Json": "`json`, `inspect`, `type`: `encoding/json` marshalling of the value universe (float format switch, HTML-safe string escaping, base64, sorted map keys, structs, pointers, `time.Time`) and `%T`",
     "TokenReSrc": "`parser.formTokenMatcher` as data (`StrExpr`, `TokenReSrc.pattern`: Sprintf/QuoteMeta/Join/range), `regexp.QuoteMeta`, the printer `Re.toGoSyntax` of the model's expressions in Go syntax (T4)",
     "Rex": "driver ops `rex`/`rexs`: decode an expression, print it, match it, answer like `FindStringSubmatchIndex`",
